@@ -3,12 +3,23 @@ import glob, os, re, sys
 from . import build, mutate
 
 def main():
-    sub = sys.argv[1] if len(sys.argv) > 1 else ""
+    args = [a for a in sys.argv[1:] if not a.startswith("--")]
+    sub = args[0] if args else ""
     bad = 0
     for p in sorted(glob.glob(os.path.join(build.VERIF, "benign", "*.patch"))):
         if sub not in p:
             continue
         prop = os.path.basename(p).split("-")[0]
+        if "--all-props" in sys.argv:
+            # the variant must be silent under EVERY property's check, not only the one it was written for
+            sts = []
+            for q in ["C%02d" % i for i in range(1, 21)]:
+                st, out = mutate.run_on_patch(q, p)
+                if st != "silent":
+                    sts.append(q + ":" + st)
+            print("%-50s %s" % (os.path.basename(p), "silent under all 20" if not sts else " ".join(sts)))
+            bad += bool(sts)
+            continue
         st, out = mutate.run_on_patch(prop, p)
         rules = sorted(set(re.findall(r"rule=(\S+) function=(.+?) instance=(\S+)", out)))
         print("%-50s %-12s %s" % (os.path.basename(p), st, "; ".join("%s:%s:%s" % (r, f.split("::")[-1], i) for r, f, i in rules)[:220]))
